@@ -1198,6 +1198,30 @@ def emit_ced():
             "Open Scope Z_scope.\nOpen Scope bool_scope.\n\n" + cfun.render(alld))
 
 
+CWPSK_FUNCS = ["dtw_warping_paths_ndim", "dtw_warping_paths_ndim_euclidean"]
+
+
+def emit_cwpsk():
+    """the two kernels that fill the compact warping-paths array (the 1-D entry points call them with ndim = 1)"""
+    import cfun
+    d = os.path.join(REPO, "src/DTAIDistanceC/DTAIDistanceC")
+    src = open(os.path.join(d, "dd_dtw.c")).read()
+    hdr = open(os.path.join(d, "dd_dtw.h")).read()
+    alld = []
+    try:
+        for fn in CWPSK_FUNCS:
+            alld.extend(cfun.translate_function(src, hdr, fn, {"s1": "l1 * ndim", "s2": "l2 * ndim", "wps": "wps_len"},
+                                                {"wps": "wps_len"}))
+    except cfun.TranslateError as exc:
+        raise TranslateError("cfun: %s" % exc)
+    check_fv([(name, [p for p, _ in params], text) for name, params, ret, text in alld])
+    return ("(* GENERATED by tools/translate_c.py (tools/cfun.py) from src/DTAIDistanceC/DTAIDistanceC/dd_dtw.c -- do not edit *)\n"
+            "(* the kernels that fill the compact warping-paths array, translated WHOLE; wps_len = number of cells of the\n"
+            "   caller's buffer; p_* = the members of the struct dtw_wps_parts returned; call_dtw_wps_shift = dtw_wps_shift(&p, .) *)\n"
+            "From Coq Require Import ZArith Bool List.\nFrom DV Require Import Prelude Cost CLang.\nImport ListNotations.\n"
+            "Open Scope Z_scope.\nOpen Scope bool_scope.\n\n" + cfun.render(alld))
+
+
 def write_gen(outdir, fname, text):
     os.makedirs(outdir, exist_ok=True)
     p = os.path.join(outdir, fname)
@@ -1214,6 +1238,7 @@ def _main():
     outdir = sys.argv[1] if len(sys.argv) > 1 else "/verif/coq/gen"
     write_gen(outdir, "Gen_cdist.v", emit_cdist())
     write_gen(outdir, "Gen_ced.v", emit_ced())
+    write_gen(outdir, "Gen_cwpsk.v", emit_cwpsk())
     try:
         text = emit_loc(analyse_loc())
     except (TranslateError, OSError) as exc:
